@@ -58,6 +58,24 @@ fn replay_file(path: &str) -> Result<(Found, Vec<run::Failure>), String> {
 
 fn cmd_replay(path: &str) -> ExitCode {
     world::install_panic_hook_once();
+    // a run that the wall-clock watchdog aborted is replayed by running it again under the same watchdog
+    if let Some(h) = std::fs::read_to_string(path).ok().and_then(|t| serde_json::from_str::<serde_json::Value>(&t).ok()).and_then(|v| v.get("hung_run").cloned().map(|h| (v["property"].as_str().unwrap_or("").to_string(), h))) {
+        let (prop, h) = h;
+        let (Some(run_seed), Some(index)) = (h["run_seed"].as_str().and_then(|s| s.parse::<u64>().ok()), h["run_index"].as_u64()) else {
+            eprintln!("harness error: bad hung_run entry in {path}");
+            return ExitCode::from(2);
+        };
+        let tier = if h["tier"].as_str() == Some("thorough") { Tier::Thorough } else { Tier::Quick };
+        let Some(run) = runner(&prop) else {
+            eprintln!("harness error: no engine for {prop}");
+            return ExitCode::from(2);
+        };
+        println!("replaying the hung run {index} (run seed {run_seed}) of {prop}: the watchdog reports it again if it hangs again");
+        let _guard = watchdog::RunGuard::new(&prop, run_seed, index as usize, tier.name());
+        let _ = run(&prop, run_seed, index as usize, tier);
+        println!("NOT-REPRODUCED property={prop} clause=hang (the run returned)");
+        return ExitCode::SUCCESS;
+    }
     match replay_file(path) {
         Err(e) => {
             eprintln!("harness error: {e}");
@@ -139,7 +157,10 @@ fn cmd_check(prop: &str, tier: Tier) -> ExitCode {
     world::install_panic_hook_once();
     println!("check {prop} tier={} seed={seed} runs={n_runs} threads={threads}", tier.name());
     let prop_owned = prop.to_string();
-    let m = check::search(prop, seed, n_runs.max(1), cap_s, threads, |s, i| run(&prop_owned, s, i, tier));
+    let m = check::search(prop, seed, n_runs.max(1), cap_s, threads, |s, i| {
+        let _guard = watchdog::RunGuard::new(&prop_owned, s, i, tier.name());
+        run(&prop_owned, s, i, tier)
+    });
     println!("  {} runs, {} evaluations, {} distinct non-trivial, {:.1}s, failures found: {}", m.runs, m.evaluations, m.signatures.len(), m.wall_s, m.found.len());
 
     {
